@@ -140,7 +140,8 @@ def pp_oracle(sc, y):
 
 
 def run_solver(perv, sc, P1, P2):
-    kw = dict(feed_temperature=sc["T"], composition=pv.Composition(p=sc["xw"], type=sc["ctype"]),
+    comp = sc.get("feed_obj") or pv.Composition(p=sc["xw"], type=sc["ctype"])
+    kw = dict(feed_temperature=sc["T"], composition=comp,
               precision=sc["prec"], first_component_permeance=pv.Permeance(value=P1),
               second_component_permeance=pv.Permeance(value=P2), calculation_type=sc["model"])
     if sc["Tperm"] is not None:
@@ -318,6 +319,20 @@ def record_job(job):
             fine["prec"] = min(fine["prec"], sc["prec"] * rng.choice([1e-2, 1e-4, 1e-5]))
             record_one(tw, sc, stats, budget=budget, perv=perv)
             record_one(tw, fine, stats, budget=budget, perv=perv)
+            continue
+        if rng.random() < 0.15:
+            # ONE Pervaporation object and ONE caller-owned composition object at one feed temperature: asked first with the other
+            # activity model, or at another fraction that is then re-assigned in place; the answer belongs to the question asked now
+            perv = pv.Pervaporation(membrane=pv.Membrane(name="verif"), mixture=sc["mix"])
+            sc["feed_obj"] = pv.Composition(p=sc["xw"], type=sc["ctype"])
+            pre = dict(sc)
+            if rng.random() < 0.5:
+                pre["model"] = "UNIQUAC" if sc["model"] == "NRTL" else "NRTL"
+            else:
+                sc["feed_obj"].p = min(0.98, max(0.02, sc["xw"] * rng.uniform(0.3, 1.7)))
+            attempt_solver(get_wrapper(), perv, pre, sc["P1"], sc["P2"], budget)       # (under the watchdogs, like every call)
+            sc["feed_obj"].p = sc["xw"]
+            record_one(tw, sc, stats, budget=budget, perv=perv)
             continue
         outcome, _ = record_one(tw, sc, stats, budget=budget)
         if opts_helpers and (outcome != "return" or rng.random() < 0.1):
